@@ -14,9 +14,17 @@
 (*        before, 4 comment at the end of its last line, 8 blank line and  *)
 (*        comment line after it                                            *)
 (*   b@p  bracket pair of the paren call / tuple / list at p, bit mask:    *)
-(*        1 newline after the opening bracket, 2 newline after every       *)
-(*        comma, 4 newline before the closing bracket, 8 a comment before  *)
-(*        each of these newlines, 16 a blank line after each of them       *)
+(*        (also the blob literal's braces and, where newlines are skipped  *)
+(*        anyway, the argument list of a prime call): mask + 8 * trivia,   *)
+(*        mask 1 newline after the opener, 2 after every comma, 4 before   *)
+(*        the closer; trivia = one of the 22 sequences of length <= 3 over *)
+(*        {end-of-line comment, comment-only line, blank line} written at  *)
+(*        each of these newlines (TrivSeqs)                                *)
+(*   g@p  the same for the outermost pair of grouping parentheses at p     *)
+(*   o@p  newline (+ trivia) after the binary operator at p, where the     *)
+(*        parser skips newlines (brackets, if/elif condition, case head)   *)
+(*   d@p  the same for a blob / enum declaration and a `from m use (..)`   *)
+(*        import list at top-level position p                              *)
 (*   indent  0..8 spaces per level, 9 = one tab per level                  *)
 (* A CHOICE FUNCTION maps site keys to options; absent keys mean 0.  Paths *)
 (* are strings built the same way by the harness renderer (surface.rs).    *)
@@ -117,9 +125,32 @@ Wrappable(e) == e.k \notin {"std", "fn"}
 B(b) == IF b THEN 1 ELSE 0
 Str(i) == ToString(i)
 
+(* ---------------------------------------------------------------- layout values of bracket-like sites *)
+(* The value of a b@ / g@ / o@ / d@ site is  mask + 8 * triv:  mask says at which GAPS of the construct a line break
+   stands (1 after the opener, 2 after every separator, 4 before the closer), triv numbers the TRIVIA written at each
+   of these gaps: every sequence of length <= 3 over T (a comment at the end of the line, only possible first),
+   C (a comment on a line of its own) and B (a blank line).  Constructs that are written over several lines anyway
+   (blob literal, blob / enum declaration) have their line breaks in the plain form; there the mask only places trivia. *)
+TrivSeqs == << <<>>, <<"T">>, <<"C">>, <<"B">>,
+               <<"T", "C">>, <<"T", "B">>, <<"C", "C">>, <<"C", "B">>, <<"B", "C">>, <<"B", "B">>,
+               <<"T", "C", "C">>, <<"T", "C", "B">>, <<"T", "B", "C">>, <<"T", "B", "B">>,
+               <<"C", "C", "C">>, <<"C", "C", "B">>, <<"C", "B", "C">>, <<"C", "B", "B">>,
+               <<"B", "C", "C">>, <<"B", "C", "B">>, <<"B", "B", "C">>, <<"B", "B", "B">> >>
+NTriv == Len(TrivSeqs)
+NLayout == 8 * NTriv
+LVal(mask, t) == IF mask = 0 THEN 0 ELSE mask + 8 * t
+Bit(v, b) == (v \div b) % 2
+\* keep the mask bits the site has; a void value is 0
+NormL(v, bits, always) ==
+    LET m == (IF 1 \in bits THEN Bit(v, 1) ELSE 0) + 2 * (IF 2 \in bits THEN Bit(v, 2) ELSE 0) + 4 * (IF 4 \in bits THEN Bit(v, 4) ELSE 0)
+        t == IF v \div 8 < NTriv THEN v \div 8 ELSE 0
+    IN IF m = 0 \/ (always /\ t = 0) THEN 0 ELSE m + 8 * t
+
 (* ---------------------------------------------------------------- Resolve: preference -> legal choice *)
-RECURSIVE RE(_, _, _, _, _, _)
-RECURSIVE RK(_, _, _, _)
+(* inb: the expression stands where the parser skips newlines (inside parentheses, brackets, braces, a paren call's
+   argument list, an if/elif condition, a case scrutinee); statements switch it off again. *)
+RECURSIVE RE(_, _, _, _, _, _, _)
+RECURSIVE RK(_, _, _, _, _)
 RECURSIVE RS(_, _, _)
 RECURSIVE RArgs(_, _, _, _, _, _)
 RECURSIVE RBody(_, _, _, _)
@@ -131,37 +162,39 @@ RBody(body, j, pre, pf) ==
     IF j > Len(body) THEN E0 ELSE RS(body[j], pre \o Str(j), pf) @@ RBody(body, j + 1, pre, pf)
 
 \* expressions es[i..n] at paths p.g<i>; every one but the last is followed by a comma, the last by lastFol
-RArgs(es, i, p, lastFol, needFn, pf) ==
+RArgs(es, i, p, lastFol, inb, pf) ==
     IF i > Len(es) THEN E0
-    ELSE RE(es[i], p \o ".g" \o Str(i), IF i < Len(es) THEN "," ELSE lastFol, NeedArg(es[i]), FALSE, pf)
-         @@ RArgs(es, i + 1, p, lastFol, needFn, pf)
+    ELSE RE(es[i], p \o ".g" \o Str(i), IF i < Len(es) THEN "," ELSE lastFol, NeedArg(es[i]), FALSE, inb, pf)
+         @@ RArgs(es, i + 1, p, lastFol, inb, pf)
 
 RFields(fs, i, p, pf) ==
     IF i > Len(fs) THEN E0
-    ELSE RE(fs[i].e, p \o ".g" \o Str(i), ",", NeedField(fs[i].e), FALSE, pf) @@ RFields(fs, i + 1, p, pf)
+    ELSE RE(fs[i].e, p \o ".g" \o Str(i), ",", NeedField(fs[i].e), FALSE, TRUE, pf) @@ RFields(fs, i + 1, p, pf)
 
 \* if arms (condition + body) and case arms (body only)
 RArms(arms, i, p, pf) ==
     IF i > Len(arms) THEN E0
-    ELSE (IF "c" \in DOMAIN arms[i] THEN RE(arms[i].c, p \o ".a" \o Str(i) \o ".c", "do", FALSE, FALSE, pf) ELSE E0)
+    ELSE (IF "c" \in DOMAIN arms[i] THEN RE(arms[i].c, p \o ".a" \o Str(i) \o ".c", "do", FALSE, FALSE, TRUE, pf) ELSE E0)
          @@ RBody(arms[i].body, 1, p \o ".a" \o Str(i) \o ".s", pf)
          @@ RArms(arms, i + 1, p, pf)
 
-NormBr(v) == IF v % 8 = 0 THEN 0 ELSE v % 32
-
 \* e at path p, followed by token fol, with `need` grammar-required parentheses; np: no redundant parentheses here
-RE(e, p, fol, need, np, pf) ==
+RE(e, p, fol, need, np, inb, pf) ==
     LET pl == IF np \/ ~Wrappable(e) THEN 0 ELSE Min2(Get(pf, "p@" \o p), 2)
-        f1 == IF need \/ pl > 0 THEN ")" ELSE fol
-    IN One("p@" \o p, pl) @@ RK(e, p, f1, pf)
+        paren == need \/ pl > 0
+        f1 == IF paren THEN ")" ELSE fol
+    IN One("p@" \o p, pl)
+       @@ (IF paren THEN One("g@" \o p, NormL(Get(pf, "g@" \o p), {1, 4}, FALSE)) ELSE E0)     \* layout of the outermost pair
+       @@ RK(e, p, f1, inb \/ paren, pf)
 
-RK(e, p, fol, pf) ==
+RK(e, p, fol, inb, pf) ==
     CASE e.k \in {"int", "float", "str", "bool", "nil", "var", "std", "self"} -> E0
-      [] e.k = "bin" -> RE(e.l, p \o ".l", e.op, NeedOperand(e.l, Level(e.op), FALSE), FALSE, pf)
-                        @@ RE(e.r, p \o ".r", fol, NeedOperand(e.r, Level(e.op), TRUE), FALSE, pf)
-      [] e.k = "un" -> RE(e.a, p \o ".a", fol, NeedUnOperand(e.a), FALSE, pf)
+      [] e.k = "bin" -> (IF inb THEN One("o@" \o p, NormL(Get(pf, "o@" \o p), {2}, FALSE)) ELSE E0)   \* line break after the operator
+                        @@ RE(e.l, p \o ".l", e.op, NeedOperand(e.l, Level(e.op), FALSE), FALSE, inb, pf)
+                        @@ RE(e.r, p \o ".r", fol, NeedOperand(e.r, Level(e.op), TRUE), FALSE, inb, pf)
+      [] e.k = "un" -> RE(e.a, p \o ".a", fol, NeedUnOperand(e.a), FALSE, inb, pf)
       [] e.k = "if" -> RArms(e.arms, 1, p, pf)
-      [] e.k = "case" -> RE(e.e, p \o ".e", "do", FALSE, FALSE, pf) @@ RArms(e.arms, 1, p, pf)
+      [] e.k = "case" -> RE(e.e, p \o ".e", "do", FALSE, FALSE, TRUE, pf) @@ RArms(e.arms, 1, p, pf)
                          @@ RBody(e.els, 1, p \o ".x.s", pf)
       [] e.k = "fn" ->
            LET n == Len(e.body)
@@ -175,45 +208,56 @@ RK(e, p, fol, pf) ==
                     ELSE IF want = 2 /\ n >= 1 /\ ArrowCallee(e.f) /\ ArrowOk(fol) THEN 2
                     ELSE IF want = 3 /\ n >= 1 /\ ArrowCallee(e.f) /\ ArrowOk(fol) /\ PrimeOk(n - 1, fol) THEN 3
                     ELSE 0
-               callee == RE(e.f, p \o ".f", IF c \in {0, 2} THEN "(" ELSE "'", c = 0 /\ NeedBase(e.f), c # 0, pf)
-               first == RE(e.args[1], p \o ".g1", "->", NeedArrowLhs(e.args[1]) \/ NeedArg(e.args[1]), FALSE, pf)
+               callee == RE(e.f, p \o ".f", IF c \in {0, 2} THEN "(" ELSE "'", c = 0 /\ NeedBase(e.f), c # 0, inb, pf)
+               first == RE(e.args[1], p \o ".g1", "->", NeedArrowLhs(e.args[1]) \/ NeedArg(e.args[1]), FALSE, inb, pf)
                paren == c \in {0, 2}
                start == IF c \in {2, 3} THEN 2 ELSE 1
-               rest == RArgs(e.args, start, p, IF paren THEN ")" ELSE fol, FALSE, pf)
-               br == IF paren /\ n >= start THEN One("b@" \o p, NormBr(Get(pf, "b@" \o p))) ELSE E0
+               rest == RArgs(e.args, start, p, IF paren THEN ")" ELSE fol, paren \/ inb, pf)
+               \* a paren call has all three gaps; a prime call has no brackets of its own, but where newlines are
+               \* skipped anyway its arguments may be broken after the commas
+               br == IF paren /\ n >= start THEN One("b@" \o p, NormL(Get(pf, "b@" \o p), {1, 2, 4}, FALSE))
+                     ELSE IF ~paren /\ inb /\ n >= start + 1 THEN One("b@" \o p, NormL(Get(pf, "b@" \o p), {2}, FALSE))
+                     ELSE E0
            IN One("c@" \o p, c) @@ br @@ callee @@ (IF c \in {2, 3} THEN first ELSE E0) @@ rest
       [] e.k = "tuple" ->
-           IF Len(e.es) = 1 THEN RE(e.es[1], p \o ".g1", ",", NeedArg(e.es[1]), FALSE, pf)
-           ELSE (IF Len(e.es) >= 2 THEN One("b@" \o p, NormBr(Get(pf, "b@" \o p))) ELSE E0)
-                @@ RArgs(e.es, 1, p, ")", FALSE, pf)
+           IF Len(e.es) = 1 THEN RE(e.es[1], p \o ".g1", ",", NeedArg(e.es[1]), FALSE, TRUE, pf)
+           ELSE (IF Len(e.es) >= 2 THEN One("b@" \o p, NormL(Get(pf, "b@" \o p), {1, 2, 4}, FALSE)) ELSE E0)
+                @@ RArgs(e.es, 1, p, ")", TRUE, pf)
       [] e.k = "list" ->
-           (IF Len(e.es) >= 1 THEN One("b@" \o p, NormBr(Get(pf, "b@" \o p))) ELSE E0) @@ RArgs(e.es, 1, p, "]", FALSE, pf)
-      [] e.k = "blob" -> RFields(e.fields, 1, p, pf)
-      [] e.k = "fld" -> RE(e.e, p \o ".e", ".", NeedBase(e.e), FALSE, pf)
-      [] e.k = "idx" -> RE(e.e, p \o ".e", "[", NeedBase(e.e), FALSE, pf)
-      [] e.k = "variant" -> IF e.has THEN RE(e.e, p \o ".e", fol, NeedArg(e.e), FALSE, pf) ELSE E0
+           (IF Len(e.es) >= 1 THEN One("b@" \o p, NormL(Get(pf, "b@" \o p), {1, 2, 4}, FALSE)) ELSE E0) @@ RArgs(e.es, 1, p, "]", TRUE, pf)
+      [] e.k = "blob" ->
+           (IF Len(e.fields) >= 1 THEN One("b@" \o p, NormL(Get(pf, "b@" \o p), {1, 2, 4}, TRUE)) ELSE E0) @@ RFields(e.fields, 1, p, pf)
+      [] e.k = "fld" -> RE(e.e, p \o ".e", ".", NeedBase(e.e), FALSE, inb, pf)
+      [] e.k = "idx" -> RE(e.e, p \o ".e", "[", NeedBase(e.e), FALSE, inb, pf)
+      [] e.k = "variant" -> IF e.has THEN RE(e.e, p \o ".e", fol, NeedArg(e.e), FALSE, inb, pf) ELSE E0
 
 IsTrue(c) == c.k = "bool" /\ c.v = TRUE
 
 RS(st, p, pf) ==
     One("s@" \o p, Get(pf, "s@" \o p) % 16) @@
-    CASE st.k = "def" -> RE(st.e, p \o ".e", "nl", FALSE, FALSE, pf)
-      [] st.k = "asg" -> RE(st.e, p \o ".e", "nl", FALSE, FALSE, pf)      \* the target is an lvalue path, not an expression: no sites
+    CASE st.k = "def" -> RE(st.e, p \o ".e", "nl", FALSE, FALSE, FALSE, pf)
+      [] st.k = "asg" -> RE(st.e, p \o ".e", "nl", FALSE, FALSE, FALSE, pf)      \* the target is an lvalue path, not an expression: no sites
       [] st.k = "loop" ->
            LET l == IF IsTrue(st.c) THEN Min2(Get(pf, "l@" \o p), 1) ELSE 0
-           IN One("l@" \o p, l) @@ (IF l = 1 THEN E0 ELSE RE(st.c, p \o ".c", "do", FALSE, FALSE, pf))
+           IN One("l@" \o p, l) @@ (IF l = 1 THEN E0 ELSE RE(st.c, p \o ".c", "do", FALSE, FALSE, FALSE, pf))
               @@ RBody(st.body, 1, p \o ".s", pf)
-      [] st.k = "ret" -> IF st.has THEN RE(st.e, p \o ".e", "nl", FALSE, FALSE, pf) ELSE E0
+      [] st.k = "ret" -> IF st.has THEN RE(st.e, p \o ".e", "nl", FALSE, FALSE, FALSE, pf) ELSE E0
       [] st.k = "block" -> RBody(st.body, 1, p \o ".s", pf)
-      [] st.k = "expr" -> RE(st.e, p \o ".e", "nl", FALSE, FALSE, pf)
+      [] st.k = "expr" -> RE(st.e, p \o ".e", "nl", FALSE, FALSE, FALSE, pf)
       [] st.k \in {"break", "continue", "unreach"} -> E0
 
 NormIndent(v) == IF v > 9 THEN DefaultIndent ELSE v
 
+\* number of items of a declaration-like top-level node (enum variants, blob fields, imported names)
+DeclItems(t) == CASE t.k = "enum" -> Len(t.variants) [] t.k = "blobdecl" -> Len(t.fields) [] t.k = "fromuse" -> Len(t.names) [] OTHER -> 0
+RTop(t, p, pf) ==
+    CASE t.k = "def" -> RS(t, p, pf)
+      [] t.k \in {"enum", "blobdecl"} -> IF DeclItems(t) >= 1 THEN One("d@" \o p, NormL(Get(pf, "d@" \o p), {1, 2, 4}, TRUE)) ELSE E0
+      [] t.k = "fromuse" -> One("d@" \o p, NormL(Get(pf, "d@" \o p), {1, 2, 4}, FALSE))     \* `from m use (a, b)`
+      [] OTHER -> E0
 RECURSIVE RTops(_, _, _)
 RTops(tops, i, pf) ==
-    IF i > Len(tops) THEN E0
-    ELSE (IF tops[i].k = "def" THEN RS(tops[i], "t" \o Str(i), pf) ELSE E0) @@ RTops(tops, i + 1, pf)
+    IF i > Len(tops) THEN E0 ELSE RTop(tops[i], "t" \o Str(i), pf) @@ RTops(tops, i + 1, pf)
 
 \* sites of tops[from..] only (the shared prelude of the generated programs stays plain)
 Resolve(tops, from, pf) == ("indent" :> NormIndent(IndentOf(pf))) @@ RTops(tops, from, pf)
@@ -224,68 +268,73 @@ LineStable(ch) == \A key \in DOMAIN ch :
     \/ key = "indent"
     \/ SubSeq(key, 1, 2) \in {"c@", "t@", "l@", "p@"}
     \/ (SubSeq(key, 1, 2) = "s@" /\ ch[key] \in {0, 4})
-    \/ (SubSeq(key, 1, 2) = "b@" /\ ch[key] = 0)
+    \/ (SubSeq(key, 1, 2) \in {"b@", "g@", "o@", "d@"} /\ ch[key] = 0)
 
 (* ---------------------------------------------------------------- the sites of a program, in pre-order *)
-\* a site: [key, kind ("c","t","l","p","s","b"), n (number of options), ctx (position class, for signatures)]
+\* a site: [key, kind ("c","t","l","p","s","b","g","o","d"), n (number of options), ctx (position class, for signatures)]
+\* o@ sites are listed where newlines are skipped in the PLAIN form (inb); g@ sites at every expression that may be parenthesised
 Site(key, kind, n, ctx) == [key |-> key, kind |-> kind, n |-> n, ctx |-> ctx]
 
-RECURSIVE SE(_, _, _, _)
+RECURSIVE SE(_, _, _, _, _)
 RECURSIVE SS(_, _)
-RECURSIVE SArgs(_, _, _, _)
+RECURSIVE SArgs(_, _, _, _, _)
 RECURSIVE SBody(_, _, _)
 RECURSIVE SArms(_, _, _)
 RECURSIVE SFields(_, _, _)
 
 SBody(body, j, pre) == IF j > Len(body) THEN <<>> ELSE SS(body[j], pre \o Str(j)) \o SBody(body, j + 1, pre)
-SArgs(es, i, p, ctx) == IF i > Len(es) THEN <<>>
-                        ELSE SE(es[i], p \o ".g" \o Str(i), IF i = Len(es) THEN "last-" \o ctx ELSE ctx, FALSE) \o SArgs(es, i + 1, p, ctx)
-SFields(fs, i, p) == IF i > Len(fs) THEN <<>> ELSE SE(fs[i].e, p \o ".g" \o Str(i), "field", FALSE) \o SFields(fs, i + 1, p)
+SArgs(es, i, p, ctx, inb) == IF i > Len(es) THEN <<>>
+                        ELSE SE(es[i], p \o ".g" \o Str(i), IF i = Len(es) THEN "last-" \o ctx ELSE ctx, FALSE, inb) \o SArgs(es, i + 1, p, ctx, inb)
+SFields(fs, i, p) == IF i > Len(fs) THEN <<>> ELSE SE(fs[i].e, p \o ".g" \o Str(i), "field", FALSE, TRUE) \o SFields(fs, i + 1, p)
 SArms(arms, i, p) ==
     IF i > Len(arms) THEN <<>>
-    ELSE (IF "c" \in DOMAIN arms[i] THEN SE(arms[i].c, p \o ".a" \o Str(i) \o ".c", "cond", FALSE) ELSE <<>>)
+    ELSE (IF "c" \in DOMAIN arms[i] THEN SE(arms[i].c, p \o ".a" \o Str(i) \o ".c", "cond", FALSE, TRUE) ELSE <<>>)
          \o SBody(arms[i].body, 1, p \o ".a" \o Str(i) \o ".s") \o SArms(arms, i + 1, p)
 
-SE(e, p, ctx, np) ==
-    (IF np \/ ~Wrappable(e) THEN <<>> ELSE <<Site("p@" \o p, "p", 3, ctx \o ":" \o e.k)>>) \o
+SE(e, p, ctx, np, inb) ==
+    (IF np \/ ~Wrappable(e) THEN <<>> ELSE <<Site("p@" \o p, "p", 3, ctx \o ":" \o e.k), Site("g@" \o p, "g", NLayout, ctx \o ":" \o e.k)>>) \o
     CASE e.k \in {"int", "float", "str", "bool", "nil", "var", "std", "self"} -> <<>>
-      [] e.k = "bin" -> SE(e.l, p \o ".l", "operand-l", FALSE) \o SE(e.r, p \o ".r", "operand-r", FALSE)
-      [] e.k = "un" -> SE(e.a, p \o ".a", "operand-un", FALSE)
+      [] e.k = "bin" -> (IF inb THEN <<Site("o@" \o p, "o", NLayout, ctx)>> ELSE <<>>)
+                        \o SE(e.l, p \o ".l", "operand-l", FALSE, inb) \o SE(e.r, p \o ".r", "operand-r", FALSE, inb)
+      [] e.k = "un" -> SE(e.a, p \o ".a", "operand-un", FALSE, inb)
       [] e.k = "if" -> SArms(e.arms, 1, p)
-      [] e.k = "case" -> SE(e.e, p \o ".e", "cond", FALSE) \o SArms(e.arms, 1, p) \o SBody(e.els, 1, p \o ".x.s")
+      [] e.k = "case" -> SE(e.e, p \o ".e", "cond", FALSE, TRUE) \o SArms(e.arms, 1, p) \o SBody(e.els, 1, p \o ".x.s")
       [] e.k = "fn" ->
            LET n == Len(e.body) IN
            (IF e.ret.k # "tvoid" /\ n > 0 /\ e.body[n].k = "expr" THEN <<Site("t@" \o p, "t", 2, ctx \o ":" \o e.body[n].e.k)>> ELSE <<>>)
            \o SBody(e.body, 1, p \o ".s")
       [] e.k = "call" ->
            (IF CallOpts(e) > 1 THEN <<Site("c@" \o p, "c", CallOpts(e), ctx \o ":" \o e.f.k \o Str(Len(e.args)))>> ELSE <<>>)
-           \o (IF Len(e.args) >= 1 THEN <<Site("b@" \o p, "b", 32, "call")>> ELSE <<>>)
-           \o SE(e.f, p \o ".f", "callee", FALSE) \o SArgs(e.args, 1, p, "arg")
-      [] e.k = "tuple" -> (IF Len(e.es) >= 2 THEN <<Site("b@" \o p, "b", 32, "tuple")>> ELSE <<>>) \o SArgs(e.es, 1, p, "elem")
-      [] e.k = "list" -> (IF Len(e.es) >= 1 THEN <<Site("b@" \o p, "b", 32, "list")>> ELSE <<>>) \o SArgs(e.es, 1, p, "elem")
-      [] e.k = "blob" -> SFields(e.fields, 1, p)
-      [] e.k = "fld" -> SE(e.e, p \o ".e", "base", FALSE)
-      [] e.k = "idx" -> SE(e.e, p \o ".e", "base", FALSE)
-      [] e.k = "variant" -> IF e.has THEN SE(e.e, p \o ".e", "payload", FALSE) ELSE <<>>
+           \o (IF Len(e.args) >= 1 THEN <<Site("b@" \o p, "b", NLayout, "call")>> ELSE <<>>)
+           \o SE(e.f, p \o ".f", "callee", FALSE, inb) \o SArgs(e.args, 1, p, "arg", TRUE)
+      [] e.k = "tuple" -> (IF Len(e.es) >= 2 THEN <<Site("b@" \o p, "b", NLayout, "tuple")>> ELSE <<>>) \o SArgs(e.es, 1, p, "elem", TRUE)
+      [] e.k = "list" -> (IF Len(e.es) >= 1 THEN <<Site("b@" \o p, "b", NLayout, "list")>> ELSE <<>>) \o SArgs(e.es, 1, p, "elem", TRUE)
+      [] e.k = "blob" -> (IF Len(e.fields) >= 1 THEN <<Site("b@" \o p, "b", NLayout, "blob")>> ELSE <<>>) \o SFields(e.fields, 1, p)
+      [] e.k = "fld" -> SE(e.e, p \o ".e", "base", FALSE, inb)
+      [] e.k = "idx" -> SE(e.e, p \o ".e", "base", FALSE, inb)
+      [] e.k = "variant" -> IF e.has THEN SE(e.e, p \o ".e", "payload", FALSE, inb) ELSE <<>>
 
 SS(st, p) ==
     <<Site("s@" \o p, "s", 16, st.k)>> \o
-    CASE st.k = "def" -> SE(st.e, p \o ".e", "value", FALSE)
-      [] st.k = "asg" -> SE(st.e, p \o ".e", "value", FALSE)
+    CASE st.k = "def" -> SE(st.e, p \o ".e", "value", FALSE, FALSE)
+      [] st.k = "asg" -> SE(st.e, p \o ".e", "value", FALSE, FALSE)
       [] st.k = "loop" -> (IF IsTrue(st.c) THEN <<Site("l@" \o p, "l", 2, "loop")>> ELSE <<>>)
-                          \o SE(st.c, p \o ".c", "cond", FALSE) \o SBody(st.body, 1, p \o ".s")
-      [] st.k = "ret" -> IF st.has THEN SE(st.e, p \o ".e", "value", FALSE) ELSE <<>>
+                          \o SE(st.c, p \o ".c", "cond", FALSE, FALSE) \o SBody(st.body, 1, p \o ".s")
+      [] st.k = "ret" -> IF st.has THEN SE(st.e, p \o ".e", "value", FALSE, FALSE) ELSE <<>>
       [] st.k = "block" -> SBody(st.body, 1, p \o ".s")
-      [] st.k = "expr" -> SE(st.e, p \o ".e", "stmt", FALSE)
+      [] st.k = "expr" -> SE(st.e, p \o ".e", "stmt", FALSE, FALSE)
       [] st.k \in {"break", "continue", "unreach"} -> <<>>
 
+STop(t, p) ==
+    CASE t.k = "def" -> SS(t, p)
+      [] t.k \in {"enum", "blobdecl", "fromuse"} -> IF DeclItems(t) >= 1 THEN <<Site("d@" \o p, "d", NLayout, t.k)>> ELSE <<>>
+      [] OTHER -> <<>>
 RECURSIVE STops(_, _)
-STops(tops, i) == IF i > Len(tops) THEN <<>>
-                  ELSE (IF tops[i].k = "def" THEN SS(tops[i], "t" \o Str(i)) ELSE <<>>) \o STops(tops, i + 1)
+STops(tops, i) == IF i > Len(tops) THEN <<>> ELSE STop(tops[i], "t" \o Str(i)) \o STops(tops, i + 1)
 Sites(tops, from) == STops(tops, from)
 
 Sugar(S) == SelectSeq(S, LAMBDA s : s.kind \in {"c", "t", "l"})
-Layout(S) == SelectSeq(S, LAMBDA s : s.kind \in {"p", "s", "b"})
+Layout(S) == SelectSeq(S, LAMBDA s : s.kind \notin {"c", "t", "l"})
 OfKind(S, kind) == SelectSeq(S, LAMBDA s : s.kind = kind)
 
 (* ---------------------------------------------------------------- preference families *)
@@ -301,7 +350,7 @@ AllPrefs(S) ==
 RECURSIVE Product(_, _)
 Product(S, i) == IF i > Len(S) THEN 1 ELSE S[i].n * Product(S, i + 1)
 
-Cap(s, v) == IF s.kind \in {"s", "b"} THEN v ELSE Min2(v, s.n - 1)
+Cap(s, v) == IF s.kind \in {"s", "b", "g", "o", "d"} THEN v ELSE Min2(v, s.n - 1)
 \* uniform and strided patterns; kinds is the set of site kinds the pattern touches
 Uniform(S, IX, kinds, v) == Pref(IX, LAMBDA i : IF S[i].kind \in kinds THEN Cap(S[i], v) ELSE 0)
 Strided(S, IX, kinds, v, m, r) == Pref(IX, LAMBDA i : IF S[i].kind \in kinds /\ i % m = r THEN Cap(S[i], v) ELSE 0)
